@@ -10,7 +10,7 @@ import vlib
 PROP = "C15"
 HARNESS = "field_set"
 TRACE = "layout/FieldTrace"
-CLAUSES = [("rej", "spurious_reject"), ("get", "getter_mismatch"), ("ni", "neighbour_changed"), ("bytes", "bytes_mismatch")]
+EXH = 12          # thorough: every value of fields up to this width is validated by TLC; wider ones (<= 16 bits) are swept
 
 
 def export_layouts(quick):
@@ -47,36 +47,53 @@ def scenarios(lay, quick):
     for c in sorted(lay):
         for f in sorted(lay[c]["fields"]):
             w = lay[c]["fields"][f]["w"]
-            sets.append({"cls": c, "field": f, "mode": "set", "exh": 0 if quick else 8, "nseed": 12 if quick else 64})
+            sets.append({"cls": c, "field": f, "mode": "set", "exh": 0 if quick else EXH, "nseed": 12 if quick else 64})
             if w not in (8, 16, 32, 64) and lay[c]["fields"][f]["ord"] != "bytes":
                 ranges.append({"cls": c, "field": f, "mode": "range"})
-            if not quick and 8 < w <= 16 and lay[c]["fields"][f]["ord"] != "bytes":
+            if not quick and EXH < w <= 16 and lay[c]["fields"][f]["ord"] != "bytes":
                 sweeps.append({"cls": c, "field": f, "mode": "sweep", "sample": 509})
     return sets, ranges, sweeps
 
 
 class Classifier:
-    """names the violated clause of a rejected execution by re-validating it with one clause switched on at a time"""
+    """names the violated clauses of a rejected execution: FieldTrace prints <<"FAIL", line, {clauses}>> for every event it
+    cannot accept; the execution is re-validated on its own and those lines are collected (diagnosis only - the verdict
+    is the rejection itself)"""
+    ORDER = ["spurious_reject", "getter_mismatch", "neighbour_changed", "bytes_mismatch", "truncated_not_rejected"]
 
     def __init__(self, pipeline):
         self.p = pipeline
         self.kinds = {}
+        self.details = {}
 
     def note(self, trace_path, rec):
         key = (rec["cls"], rec["field"], rec["mode"])
         if key in self.kinds:
             return
-        if rec["mode"] == "range":
-            self.kinds[key] = ["truncated_not_rejected"]
-            return
         one = os.path.join(self.p.dir, "classify.ndjson")
         vlib.extract_execution(trace_path, rec["line"], one)
-        ks = []
-        for clause, name in CLAUSES:
-            rej, _ = vlib.validate(TRACE, one, "FieldTrace_%s.cfg" % clause)
-            if rej:
-                ks.append(name)
-        self.kinds[key] = ks or ["rejected"]
+        _, r = vlib.validate(TRACE, one, "FieldTrace.cfg")
+        fails = re.findall(r'<<\s*"FAIL",\s*(\d+),\s*\{([^}]*)\}\s*>>', r.out)
+        ks = set()
+        for _, body in fails:
+            ks |= set(re.findall(r'"(\w+)"', body))
+        self.kinds[key] = [k for k in self.ORDER if k in ks] or ["rejected"]
+        if fails:
+            with open(one) as f:
+                lines = f.readlines()
+            ev = json.loads(lines[int(fails[0][0]) - 1])
+            head = json.loads(lines[0])
+            d = {"value": ev.get("v"), "setter_threw": ev.get("rej"), "event_index": int(fails[0][0]) - 1}
+            if ev["e"] == "set":
+                gi = head["getters"].index(rec["field"])
+                d["getter_after"] = ev["ga"][gi]
+                d["other_getters_changed"] = [head["getters"][i] for i in range(len(head["getters"]))
+                                              if i != gi and ev["ga"][i] != ev["gb"][i]]
+                d["header_octets_changed (index, before, after)"] = [
+                    (i, ev["hb"][i], ev["ha"][i]) for i in range(min(len(ev["hb"]), len(ev["ha"]))) if ev["hb"][i] != ev["ha"][i]][:12]
+            else:
+                d["field_before"], d["field_after"] = ev.get("before"), ev.get("after")
+            self.details[key] = d
 
     def kind(self, rec):
         return "+".join(self.kinds.get((rec["cls"], rec["field"], rec["mode"]), ["rejected"]))
@@ -119,10 +136,22 @@ def run(tier):
         s["kind"] = cl.kind(rec) if (kind == "rejected" and rec) else kind
         return s
 
+    # one candidate per (class, field, kind): a pair rejected in the boundary run and again in the sweep is one finding
+    seen, uniq = set(), []
+    for c in p.candidates:
+        k = json.dumps(sig(c[0], c[2], c[3], c[5]), sort_keys=True)
+        if k not in seen:
+            seen.add(k)
+            uniq.append(c)
+    p.candidates = uniq
     t1 = time.time()
     p.confirm(v, sig, limit=200)
     vlib.log("[c15] %d events in %d executions, replay %.1fs, validation %.1fs, confirmation %.1fs" % (
         p.stats["events"], p.stats["executions"], p.stats["replay_s"], p.stats["validate_s"], time.time() - t1))
+    findings = []
+    for (c, f, mode), ks in sorted(cl.kinds.items()):
+        findings.append({"cls": c, "field": f, "mode": mode, "kind": "+".join(ks), "first_failing_event": cl.details.get((c, f, mode))})
+        vlib.log("[c15] rejected: %s.%s (%s) %s  %s" % (c, f, mode, "+".join(ks), json.dumps(cl.details.get((c, f, mode)))[:400]))
     rc = v.finish()
     classes = sorted({c for c, _ in bound})
     libcls = libtins_pdu_classes()
@@ -137,18 +166,19 @@ def run(tier):
                 "every single bit set / cleared) + %d seeded values%s, each from a seeded random prior state of all other fields; "
                 "range: 2^w, 2^w+1, all-ones / top bit of the parameter type, seeded values >= 2^w; %s; "
                 "distinct non-trivial = (class, field) pairs with a setter binding" % (
-                    12 if quick else 64, "" if quick else " (all values for widths <= 8)",
+                    12 if quick else 64, "" if quick else " (all values for widths <= %d)" % EXH,
                     "no exhaustive sweep in this tier" if quick else
-                    "sweep: all 2^w values of every field of 9..16 bits, pre-filtered by an interpreter of the table TLC exported, "
+                    "sweep: all 2^w values of every field of 13..16 bits, pre-filtered by an interpreter of the table TLC exported, "
                     "every disagreement and every 509th call validated by TLC"),
         "classes_covered": classes, "class_count": len(classes), "field_pairs_covered": len(bound),
         "layout_fields_without_setter_binding": sorted(getter_only), "layout_fields_without_any_binding": sorted(unbound),
         "libtins_classes_not_in_Layouts (not covered)": not_covered,
+        "rejected_pairs": findings,
         "range_probe_pairs": len(ranges), "exhaustive_setter_calls": swept,
         "model_checked": {"MCLayouts": {"distinct": mc.distinct, "generated": mc.generated}, "model_mutants_refuted": refuted},
         "replay": p.stats, "exhaustive": False,
     }
-    vlib.write_evidence(PROP, tier, "model_checking", cov, time.time() - t0, len(v.violations), [
+    vlib.write_evidence(PROP, tier, "exploration", cov, time.time() - t0, len(v.violations), [
         "coverage = the classes and fields present in spec/layout/Layouts.tla (transcribed from the cited RFC / IEEE clauses); "
         "classes listed under 'libtins_classes_not_in_Layouts' are NOT covered",
         "each header is serialised as the outermost layer (IP, IPv6, Dot1Q with an opaque RawPDU payload so that the user's "
